@@ -181,9 +181,34 @@ class EscapeAnalysis:
         for e in elts:
             n = self.exc_name(fn, e)
             if n is None:
-                raise AnalysisError(f"cannot resolve handler class `{short(e)}` in {fn.qualname}")
+                # a module-level constant naming a tuple of classes: `except _OP_ERRORS:`
+                more = self._constant_classes(fn, e)
+                if more is None:
+                    raise AnalysisError(f"cannot resolve handler class `{short(e)}` in {fn.qualname}")
+                names.extend(more)
+                continue
             names.append(n)
         return names
+
+    def _constant_classes(self, fn: FuncInfo, e: ast.expr, depth: int = 0) -> Optional[List[str]]:
+        if depth > 3 or not isinstance(e, ast.Name):
+            return None
+        value = fn.module.assigns.get(e.id)
+        if value is None and fn.cls is not None:
+            value = fn.cls.assigns.get(e.id)
+        if value is None:
+            return None
+        out: List[str] = []
+        for x in (value.elts if isinstance(value, ast.Tuple) else [value]):
+            n = self.exc_name(fn, x)
+            if n is None:
+                sub = self._constant_classes(fn, x, depth + 1)
+                if sub is None:
+                    return None
+                out.extend(sub)
+            else:
+                out.append(n)
+        return out
 
     def _walk_stmt(  # noqa: PLR0912
         self,
